@@ -430,6 +430,61 @@ func TestC11Requests(t *testing.T) {
 				c.Send(b)
 				keepReading()
 			},
+			// a connect attempt is under way (Dialer or CONNACK outstanding),
+			// requests arrive meanwhile, then the attempt fails: they must
+			// return (ErrDown) without any further ReadSlices
+			"connectFails": func(rt *rapid.T) {
+				c := h.Current()
+				if c == nil || len(h.ParkedGates()) > 0 || h.WritersParkedAny() {
+					rt.Skip("no connection, or something is parked")
+				}
+				inDial := rapid.Bool().Draw(rt, "inDial")
+				h.Act("connectFails: break conn=%d, next attempt waits in %s", c.N, map[bool]string{true: "the Dialer", false: "the handshake"}[inDial])
+				if inDial {
+					h.ScriptDial(sim.DialOutcome{Kind: sim.DialParkErr})
+				} else {
+					h.ScriptDial(sim.DialOutcome{Connack: &sim.ConnackPolicy{Kind: sim.ConnackHold}})
+				}
+				c.Break(rapid.Bool().Draw(rt, "graceful"))
+				waiting := func() bool {
+					if inDial {
+						return h.DialParked() > 0
+					}
+					cur := h.Current()
+					return cur != nil && cur != c && h.ReaderWaiting()
+				}
+				for i := 0; i < 4 && !waiting(); i++ {
+					if !h.App.InCall() {
+						h.App.Step()
+					}
+					h.MustPoll("ReadSlices returning or the connect attempt waiting", func() bool { return !h.App.InCall() || waiting() })
+				}
+				if !waiting() {
+					h.ClearDialScript()
+					rt.Skip("the attempt did not come to wait")
+				}
+				before := len(m.reqs)
+				for i, n := 0, rapid.IntRange(1, 3).Draw(rt, "requests"); i < n; i++ {
+					kind := rapid.SampledFrom([]string{"sub", "unsub", "ping"}).Draw(rt, "kind")
+					if kind == "ping" && !m.pingAllowed() {
+						kind = "sub"
+					}
+					m.issue(rt, kind)
+				}
+				h.Act("… the attempt fails")
+				if inDial {
+					h.ReleaseDial()
+				} else {
+					h.Current().Break(false)
+				}
+				h.MustPoll("ReadSlices returning the failed connect attempt", func() bool { return !h.App.InCall() })
+				for _, r := range m.reqs[before:] {
+					h.MustPoll(fmt.Sprintf("call %d %s, issued while a connect attempt was under way, returning after that attempt failed", r.call.N, r.kind), func() bool {
+						return h.IsDone(r.call) || len(h.ParkedGates()) > 0 // (a gate armed earlier may hold its epilogue)
+					})
+				}
+				h.label("requests-during-a-failing-connect")
+			},
 			"fireQuit": func(rt *rapid.T) {
 				var cands []*rq
 				for _, r := range m.reqs {
